@@ -301,6 +301,27 @@ pub unsafe fn BN_bn2bin(in_: *const BIGNUM, out: *mut u8) -> usize {
     }
     l
 }
+/// aws-lc bn/bytes.c `BN_bn2bin_padded(out, len, in)`: writes |in| as exactly `len` big-endian bytes, left-padded with zeros;
+/// returns 1, or 0 (nothing guaranteed about `out`) when the value needs more than `len` bytes.
+pub unsafe fn BN_bn2bin_padded(out: *mut u8, len: usize, in_: *const BIGNUM) -> c_int {
+    let b = *in_;
+    let l = b.len;
+    if l > len {
+        return 0;
+    }
+    // out[i] for i in 0..len: zero for the first len - l bytes, then the magnitude (right-aligned in `mag`)
+    let mut j = 0;
+    while j < BN_CAP {
+        // magnitude byte j (j >= BN_CAP - l) goes to out[len - (BN_CAP - j)]
+        if j >= BN_CAP - l {
+            *out.add(len - (BN_CAP - j)) = b.mag[j];
+        } else if BN_CAP - j <= len {
+            *out.add(len - (BN_CAP - j)) = 0;
+        }
+        j += 1;
+    }
+    1
+}
 pub unsafe fn BN_free(bn: *mut BIGNUM) {
     free_obj(bn)
 }
